@@ -1,5 +1,6 @@
 from typing import Iterable, Union, Dict, List, Optional, Set, Callable, Sequence
 
+import numpy as np
 import pandas as pd
 
 from .frame import (
@@ -35,6 +36,7 @@ class Column:
 
     def __init__(self, df: TableDataFrame, name: str, table_info: ComplementaryTableInfo = None):
         self._name = name
+        self._df = df
         self._values = df[name]
         if not table_info:
             table_info = get_table_info(df)
@@ -63,7 +65,10 @@ class Column:
 
     @values.setter
     def values(self, values):
-        self._values.update(pd.Series(values))
+        # Write through to the backing dataframe, row for row (positionally): Series.update()
+        # aligns on the index, skips NaN and, with copy-on-write, never reaches the dataframe.
+        self._df[self._name] = np.asarray(values)
+        self._values = self._df[self._name]
 
     def convert_units(self, to: Union[str, None], converter: UnitConverter):
         """Converts this column's units in place.
